@@ -1852,6 +1852,14 @@ export class AnyOfDiscriminatedRuntype extends BaseRuntype {
     this.ensureContextualDefinition(syntheticRefName, runtype, ctx);
     return printingContext.getRef(syntheticRefName);
   }
+  // discriminator values are string literals: only own entries of the mapping count, never
+  // inherited members such as "toString" or "constructor"
+  private lookupMapping(d: unknown): Runtype | undefined {
+    if (typeof d !== "string" || !Object.prototype.hasOwnProperty.call(this.mapping, d)) {
+      return undefined;
+    }
+    return this.mapping[d];
+  }
   validate(ctx: ValidateContext, input: unknown): boolean {
     if (typeof input !== "object" || input == null) {
       return false;
@@ -1860,7 +1868,7 @@ export class AnyOfDiscriminatedRuntype extends BaseRuntype {
     if (d == null) {
       return false;
     }
-    const v = this.mapping[d];
+    const v = this.lookupMapping(d);
     if (v == null) {
       return false;
     }
@@ -1868,7 +1876,7 @@ export class AnyOfDiscriminatedRuntype extends BaseRuntype {
     return v.validate(ctx, input);
   }
   parseAfterValidation(ctx: ParseContext, input: any): unknown {
-    const parser = this.mapping[input[this.discriminator]];
+    const parser = this.lookupMapping(input[this.discriminator]);
     if (parser == null) {
       throw new Error(
         "INTERNAL ERROR: Missing parser for discriminator " + JSON.stringify(input[this.discriminator]),
@@ -1888,7 +1896,7 @@ export class AnyOfDiscriminatedRuntype extends BaseRuntype {
     if (d == null) {
       return buildError(ctx, "expected discriminator key " + JSON.stringify(this.discriminator), input);
     }
-    const v = this.mapping[d];
+    const v = this.lookupMapping(d);
     if (v == null) {
       pushPath(ctx, this.discriminator);
       const errs = buildError(
